@@ -43,6 +43,18 @@ func (v enumItemValue) isNumber() bool {
 	return v.jsonType == jjson.TypeInteger || v.jsonType == jjson.TypeFloat
 }
 
+// uniqueKey returns the value by which duplicates are found. Numbers of the same
+// type are the same value whatever the spelling is (see Validate): 1.0 and 1.00,
+// 0 and -0.
+func (v enumItemValue) uniqueKey() enumItemValue {
+	if v.isNumber() {
+		if n, err := jjson.NewNumber(jbytes.Bytes(v.value)); err == nil {
+			v.value = n.String()
+		}
+	}
+	return v
+}
+
 func NewEnumItem(b jbytes.Bytes, c string) EnumItem {
 	i := EnumItem{src: b, comment: c}
 	b = b.TrimSpaces()
@@ -91,12 +103,13 @@ func (c Enum) String() string {
 }
 
 func (c *Enum) Append(i EnumItem) int {
-	if _, ok := c.uniqueIdx[i.enumItemValue]; ok {
+	key := i.uniqueKey()
+	if _, ok := c.uniqueIdx[key]; ok {
 		panic(errors.Format(errors.ErrDuplicationInEnumRule, i.src.String()))
 	}
 	idx := len(c.items)
 	c.items = append(c.items, i)
-	c.uniqueIdx[i.enumItemValue] = struct{}{}
+	c.uniqueIdx[key] = struct{}{}
 	return idx
 }
 
